@@ -164,12 +164,12 @@ def cases(c):
             if 1 <= p <= min(N // 2, 20):
                 for cplx in (0, 1):
                     out.append({'N': N, 'p': p, 'cplx': cplx, 'kind': 'noise', 'directed': True})
-    for i in range(1200 if c.tier == 'quick' else 54000):
+    for i in range(1200 if c.tier == 'quick' else 216000):
         N = int(rng.integers(6, 129 if i % 3 == 0 else 48))
         out.append({'N': N, 'p': int(rng.integers(1, min(N // 2, 20) + 1)), 'cplx': int(rng.integers(0, 2)),
                     'kind': gen.pick(rng, KINDS), 'amp10': int(gen.pick(rng, [0, 0, 0, -3, -6, 3, 5, 6])), 'i': i})
     # noiseless sums of p exponentials on an NFFT grid
-    for i in range(200 if c.tier == 'quick' else 15000):
+    for i in range(200 if c.tier == 'quick' else 60000):
         p = int(rng.integers(1, 9))
         cplx = int(rng.integers(0, 2))
         if not cplx and p % 2:
